@@ -266,6 +266,64 @@ async def directive_termination_scenario(timeout=15.0):
     return problems, n
 
 
+# argument coercions that really SUSPEND, each for its own number of loop iterations (seed C08-h): whichever coercion of a
+# field's arguments finishes first, every value reaches the resolver under its own argument name, in every configuration
+PACED_SDL = """
+directive @paced on ARGUMENT_DEFINITION
+type Query {
+  span(lo: Int @paced, hi: Int @paced, step: Int = 7 @paced): String
+  plain(lo: Int, hi: Int): String
+}
+"""
+PACED_REQUESTS = [("{ span(lo: 1, hi: 20, step: 300) plain(lo: 1, hi: 2) }", {}, "lo=1 hi=20 step=300"),
+                  ("query ($a: Int, $b: Int) { span(hi: $b, lo: $a) }", {"a": 2, "b": 50}, "lo=2 hi=50 step=7"),
+                  ("{ span(lo: 4, step: 9) }", {}, "lo=4 hi=None step=9")]
+
+
+async def paced_arguments_scenario():
+    import itertools
+    from tartiflette import create_engine, Resolver, Directive
+    from tartiflette.resolver.default import sync_arguments_coercer
+    problems, n = [], 0
+    for cfg in CONFIGS:
+        name = fresh_schema_name("c08paced")
+
+        @Directive("paced", schema_name=name)
+        class Paced:          # pylint: disable=unused-variable
+            async def on_argument_execution(self, directive_args, next_directive, parent_node, argument_definition_node,
+                                            argument_node, value, ctx):
+                for _ in range(ctx["ticks"].get(argument_definition_node.name.value, 0)):
+                    await asyncio.sleep(0)
+                return await next_directive(parent_node, argument_definition_node, argument_node, value, ctx)
+        kw = dict(schema_name=name, parent_concurrently=cfg["parent"], list_concurrently=cfg["list"])
+        if cfg["args"] == "sync":
+            kw["arguments_coercer"] = sync_arguments_coercer
+
+        async def body(parent, args, ctx, info):
+            return "lo=%s hi=%s step=%s" % (args.get("lo"), args.get("hi"), args.get("step"))
+        Resolver("Query.span", **kw)(body)
+        Resolver("Query.plain", **kw)(body)
+        engine = await create_engine(PACED_SDL, schema_name=name, coerce_parent_concurrently=cfg["parent"],
+                                     coerce_list_concurrently=cfg["list"])
+        for ticks in itertools.product((0, 1, 3), repeat=3):
+            t = dict(zip(("lo", "hi", "step"), ticks))
+            for q, variables, want in PACED_REQUESTS:
+                n += 1
+                try:
+                    resp = await asyncio.wait_for(engine.execute(q, variables=dict(variables), context={"ticks": t}), 15.0)
+                except Exception as e:  # pylint: disable=broad-except
+                    problems.append({"sdl": PACED_SDL, "query": q, "variables": variables, "configuration": cfg,
+                                     "loop iterations each argument coercion waits": t, "kind": "execute raised / hung: %r" % e})
+                    continue
+                got = (resp.get("data") or {}).get("span")
+                if got != want or resp.get("errors"):
+                    problems.append({"sdl": PACED_SDL, "query": q, "variables": variables, "configuration": cfg,
+                                     "loop iterations each argument coercion waits": t,
+                                     "kind": "the resolver received %r, the request says %r" % (got, want),
+                                     "response": repr(resp)[:1000]})
+    return problems, n
+
+
 def data_key(resp):
     import re
     return re.sub(r"0x[0-9a-fA-F]+", "0x", json.dumps(resp.get("data"), sort_keys=False, default=repr))
@@ -339,6 +397,9 @@ def main(tier_, replay=None):
             seq_dis.append((s,) + items[i])
     dir_problems, dir_runs = asyncio.run(directive_termination_scenario())
     total_runs += dir_runs
+    paced_problems, paced_runs = asyncio.run(paced_arguments_scenario())
+    total_runs += paced_runs
+    dir_problems = dir_problems + paced_problems
     for pr in dir_problems[:3]:
         rep.violation(dict(pr, property="C08"))
     for s, c, r, cfg, why in viol[:5]:
